@@ -154,6 +154,17 @@ pub fn parse_eof(src: &'static str) -> Report {
     .with_source_code(src)
 }
 
+pub fn parse_too_long(span: Span, src: &'static str) -> Report {
+    miette!(
+        severity = Severity::Error,
+        code = "parse::too_long",
+        help = "a program can hold at most 65535 words of instructions and data",
+        labels = vec![LabeledSpan::at(span, "does not fit in memory")],
+        "Program is too long"
+    )
+    .with_source_code(src)
+}
+
 pub fn parse_lit_range(span: Span, src: &'static str, bits: Bits) -> Report {
     miette!(
         severity = Severity::Error,
